@@ -16,6 +16,7 @@ import (
 	"helm.sh/helm/v4/pkg/storage/driver"
 
 	"helm.sh/helm/v4/verifh/core"
+	"helm.sh/helm/v4/verifh/env"
 	"helm.sh/helm/v4/verifh/gen"
 	"helm.sh/helm/v4/verifh/ref"
 )
@@ -255,6 +256,7 @@ func checkTree(res *core.Result, in treeInput, idx int, verbose bool) {
 	}{{"engine", renderEngine}, {"install-dry-run", renderInstall}}
 	var first *observed
 	seen := map[string]bool{}
+	setMismatch := false
 	for _, rt := range routes {
 		var o *observed
 		if core.Guard(res, rt.name+" | "+input(), func() { o = rt.f(files, in.User) }) {
@@ -378,6 +380,7 @@ func checkTree(res *core.Result, in treeInput, idx int, verbose bool) {
 		}
 		res.Stat("rendered_sets_compared", 1)
 		if !setOK {
+			setMismatch = true
 			continue // a wrong enabled decision changes every view; the set violation is the cause
 		}
 
@@ -429,6 +432,60 @@ func checkTree(res *core.Result, in treeInput, idx int, verbose bool) {
 					class = nestedGlobalClass
 				}
 				add(res, seen, "isolation-provenance", class, "route %s: chart %s prints leaf %q | observed .Values %s | %s", rt.name, x.path(), p[1], ref.J(got), input())
+			}
+		}
+	}
+
+	// --- real install against the simulated API server: the CRDs that reach the cluster
+	// (Install pre-installs crds/ before rendering; the dry-run routes above never send anything)
+	sampled := in.Stratum == "tree" || in.Stratum == "unlisted" || idx%8 == 0
+	if first != nil && first.err == nil && !setMismatch && nDisabled > 0 && sampled {
+		w := env.NewWorld("memory", "ns1")
+		var r env.OpResult
+		if !core.Guard(res, "real install | "+input(), func() {
+			r = w.Exec("inst", "r", env.Op{Kind: "install", Vals: ref.CanonMap(in.User)}, files.Build())
+		}) {
+			res.Evals++
+			res.Stat("real_installs_on_simulated_cluster", 1)
+			posted := map[string]bool{}
+			for _, e := range w.Sim.Log() {
+				if e.Phase == "done" && e.Method == "POST" && e.Kind == "CustomResourceDefinition" {
+					posted[e.Name] = true // the sim logs the name from the POSTed body
+				}
+			}
+			res.Stat("crd_posts_observed", int64(len(posted)))
+			liveDef, deadInst := map[string]*inst{}, map[string]*inst{}
+			for _, x := range insts {
+				if live[x] {
+					liveDef[x.Def.Name] = x
+				}
+			}
+			for _, x := range insts {
+				if !live[x] && liveDef[x.Def.Name] == nil && deadInst[x.Def.Name] == nil {
+					deadInst[x.Def.Name] = x
+				}
+			}
+			if verbose {
+				fmt.Printf("  route real-install: err=%v CRDs POSTed=%v\n", r.Err, gen.SortedKeys(posted))
+			}
+			for _, d := range gen.SortedKeys(deadInst) {
+				res.Stat("crds_of_disabled_charts_checked", 1)
+				if posted["things."+d+".example.com"] {
+					x := deadInst[d]
+					da := disabledAncestor(x, on)
+					add(res, seen, "disabled-dependency-contributes", fmt.Sprintf("CRD of a disabled %s is sent to the cluster by a real install; disabled by %s%s", relName(x), decidedBy(da, why[da], in.User), strat(in)),
+						"POST customresourcedefinitions things.%s.example.com although %s is disabled (%s); install err=%v | %s", d, da.path(), why[da], r.Err, input())
+					break
+				}
+			}
+			for _, d := range gen.SortedKeys(liveDef) {
+				if !posted["things."+d+".example.com"] {
+					x := liveDef[d]
+					add(res, seen, "enabled-dependency-absent", fmt.Sprintf("CRD of an enabled %s is not sent to the cluster by a real install%s", relName(x), strat(in)),
+						"no POST of things.%s.example.com although %s is enabled; install err=%v | %s", d, x.path(), r.Err, input())
+					break
+				}
+				res.Stat("crds_of_enabled_charts_seen_posted", 1)
 			}
 		}
 	}
